@@ -28,5 +28,14 @@ for pid in ("C14", "C15", "C16"):
                 r = dict(r); r["bounds"] = "transport lemma shared with C03: " + r["bounds"]
                 cfg[k].append(r)
     json.dump(cfg, open(pid + ".json", "w"), indent=1)
+# C03's "no reply for a tag that is no longer outstanding" also covers replies that arrive after the Rflush of
+# their request: one flush workload of C07 is part of the C03 check
+c03 = json.load(open("C03.json")); c07 = json.load(open("C07.json"))
+for k in ("quick", "thorough"):
+    extra = [r for r in c07[k] if r["args"] in (["2", "1", "0", "true", "false"], ["0", "0", "2", "false", "false"], ["2", "0", "2", "true", "false"])][:2]
+    for r in extra:
+        r = dict(r); r["bounds"] = "flush lemma shared with C07 (a reply never follows the Rflush of its request; every Tflush answered): " + r["bounds"]
+        c03[k].append(r)
+json.dump(c03, open("C03.json", "w"), indent=1)
 PY
 echo props regenerated
